@@ -72,16 +72,35 @@ func init() {
 			ex.flush()
 			cond := boolTerm(ex, args[0])
 			var facts []*smt.Term
+			inPc := map[int]bool{}
+			for _, p := range ex.pc {
+				inPc[p.ID] = true
+				if p.Op == "and" {
+					for _, q := range p.Args {
+						inPc[q.ID] = true
+					}
+				}
+			}
 			for _, f := range args[2].([]value) {
-				facts = append(facts, boolTerm(ex, f))
+				ft := boolTerm(ex, f)
+				if !inPc[ft.ID] && !ft.IsTrue() {
+					// a fact that is not literally part of the path condition must follow from it
+					ob := ex.check("assert", "fact used by a focused lemma follows from the path condition: "+strArg(args[1]), posStr(fr), ft)
+					if ob.Status != "unsat" && ob.Status != "trivial" {
+						continue // not established: do not use it
+					}
+				}
+				facts = append(facts, ft)
 			}
 			save := ex.pc
 			ex.pc = facts
 			ob := ex.check("lemma", strArg(args[1]), posStr(fr), cond)
-			_ = ob
+			proved := ob.Status == "unsat" || ob.Status == "trivial"
 			ex.pc = save
-			ex.assume(cond, true)
-			return nil
+			if proved {
+				ex.assume(cond, true)
+			}
+			return proved
 		},
 		// vfStub(name, fn): calls of the named function (ssa Function.String(), e.g.
 		// "github.com/deadsy/sdfx/render.mcInterpolate") run fn instead (contract stub)
